@@ -104,6 +104,8 @@ pub fn dispatch(t: &[&str]) -> String {
         }
         // seq <kind> <hex> <op>... : parse, apply the operations, report the final state and its encoding
         "seq" => seq(t),
+        // hevc <chunk_size> <hex>: hevc_parser's view of a stream: NALs with frame indices, ordered frames
+        "hevc" => hevc_view(t),
         // rpufile <chunk_size> <hex>: write the bytes to a temp file and read it with parse_rpu_file
         "rpufile" => {
             let cs = t[1];
@@ -232,5 +234,47 @@ fn seq(t: &[&str]) -> String {
             format!("ok {} {} {}", js, hex(&o), back)
         }
         Err(_) => format!("ok {} errw -", js),
+    }
+}
+
+
+struct Collect {
+    input: std::path::PathBuf,
+    nals: Vec<String>,
+    frames: Vec<String>,
+    batches: usize,
+}
+
+impl hevc_parser::io::IoProcessor for Collect {
+    fn input(&self) -> &std::path::PathBuf {
+        &self.input
+    }
+    fn update_progress(&mut self, _delta: u64) {}
+    fn process_nals(&mut self, _parser: &hevc_parser::HevcParser, nals: &[hevc_parser::hevc::NALUnit], chunk: &[u8]) -> anyhow::Result<()> {
+        self.batches += 1;
+        for n in nals {
+            let crc = crc32_mpeg2(&chunk[n.start..n.end]);
+            self.nals.push(format!("{}:{}:{}:{}:{}", n.nal_type, n.decoded_frame_index, n.end - n.start, crc, n.start_code.size()));
+        }
+        Ok(())
+    }
+    fn finalize(&mut self, parser: &hevc_parser::HevcParser) -> anyhow::Result<()> {
+        for f in parser.ordered_frames() {
+            self.frames.push(format!("{}:{}:{}", f.decoded_number, f.presentation_number, f.frame_type));
+        }
+        Ok(())
+    }
+}
+
+fn hevc_view(t: &[&str]) -> String {
+    use hevc_parser::io::{processor::{HevcProcessor, HevcProcessorOpts}, IoFormat};
+    let cs: usize = t[1].parse().unwrap();
+    let data = unhex(t[2]);
+    let mut c = Collect { input: std::path::PathBuf::new(), nals: Vec::new(), frames: Vec::new(), batches: 0 };
+    let mut p = HevcProcessor::new(IoFormat::Raw, HevcProcessorOpts::default(), cs);
+    let mut rd = std::io::Cursor::new(data);
+    match p.process_io(&mut rd, &mut c) {
+        Ok(()) => format!("ok {} {} {}", c.batches, if c.nals.is_empty() { "-".to_string() } else { c.nals.join(",") }, if c.frames.is_empty() { "-".to_string() } else { c.frames.join(",") }),
+        Err(e) => format!("err {}", e.to_string().replace(char::is_whitespace, "_")),
     }
 }
